@@ -233,8 +233,18 @@ func (p *Prelude) render(body string) string {
 	}
 	var unit strings.Builder
 	for i, s := range p.axioms {
-		if subj := p.axSubj[i]; subj != "" && !strings.Contains(body, subj) {
-			continue
+		if subj := p.axSubj[i]; subj != "" {
+			// several subjects separated by '|': relevant when any of them occurs
+			hit := false
+			for _, sj := range strings.Split(subj, "|") {
+				if strings.Contains(body, sj) {
+					hit = true
+					break
+				}
+			}
+			if !hit {
+				continue
+			}
 		}
 		unit.WriteString("(assert ")
 		unit.WriteString(s)
